@@ -69,6 +69,9 @@ pub enum BlockQuantizedError {
     UnsupportedBlockSize,
     /// The number of bits per element is unsupported.
     UnsupportedElementSize,
+    /// The shape of the scales does not match the number of columns and
+    /// blocks per column of the quantized data.
+    ScalesShapeMismatch,
 }
 
 impl Display for BlockQuantizedError {
@@ -76,6 +79,9 @@ impl Display for BlockQuantizedError {
         match self {
             Self::UnsupportedBlockSize => write!(f, "block size is unsupported"),
             Self::UnsupportedElementSize => write!(f, "unsupported bits-per-element"),
+            Self::ScalesShapeMismatch => {
+                write!(f, "scales shape does not match quantized data shape")
+            }
         }
     }
 }
